@@ -2,7 +2,7 @@ CONSTANTS
   MaxLen = 2
   MaxReentry = 2
   Envs = {"ok", "retry503", "close", "aterm", "lterm", "atermA", "atermB", "atermC", "atermD", "rterm", "rtermT"}
-  Defects = {"DirectNotShortCircuit"}
+  Defects = {"DeclinedTerminateKeepsResponseFlag"}
 INIT Init
 NEXT Next
 INVARIANTS
